@@ -36,6 +36,17 @@ impl std::fmt::Debug for Op {
         }
     }
 }
+impl Op {
+    fn kind(self) -> &'static str {
+        match self {
+            Op::Update(_) => "update",
+            Op::FetchMax(_) => "fetch_max",
+            Op::Swap(_) => "swap",
+            Op::Store(_) => "store",
+            Op::Load => "load",
+        }
+    }
+}
 fn prog_name(p: &[Op]) -> String {
     p.iter().map(|o| format!("{o:?}")).collect::<Vec<_>>().join(".")
 }
@@ -71,20 +82,20 @@ fn op_count() {
 fn seq_reload_id() {
     // NEVER is the least id; ordering of ids is the ordering of their numbers
     if raw(ReloadId::NEVER) != 0 {
-        fail!("seq:NEVER-not-zero", "ReloadId::NEVER is {:?}", ReloadId::NEVER);
+        fail!("seq-NEVER-not-zero", "ReloadId::NEVER is {:?}", ReloadId::NEVER);
     }
     if ReloadId::default() != ReloadId::NEVER {
-        fail!("seq:default-not-NEVER", "ReloadId::default() = {:?}", ReloadId::default());
+        fail!("seq-default-not-NEVER", "ReloadId::default() = {:?}", ReloadId::default());
     }
     for a in VALS {
         case();
         if rid(a) < ReloadId::NEVER || (a > 0 && !(rid(a) > ReloadId::NEVER)) {
-            fail!(format!("seq:NEVER-not-least:{a}"), "ReloadId({a}) vs NEVER");
+            fail!("seq-NEVER-not-least", "ReloadId({a}) compared with ReloadId::NEVER");
         }
         for b in VALS {
             case();
             if rid(a).cmp(&rid(b)) != a.cmp(&b) || (rid(a) == rid(b)) != (a == b) {
-                fail!(format!("seq:ReloadId-order:{a},{b}"), "ReloadId({a}) cmp ReloadId({b}) = {:?}", rid(a).cmp(&rid(b)));
+                fail!("seq-ReloadId-order", "ReloadId({a}) cmp ReloadId({b}) = {:?}", rid(a).cmp(&rid(b)));
             }
         }
     }
@@ -101,7 +112,7 @@ fn seq_reload_id() {
                 s = s.max(k);
                 if got != want || raw(r) != s {
                     let upto: Vec<String> = offers[..=i].iter().map(|x| x.to_string()).collect();
-                    fail!(format!("seq:ReloadId::update:{old}<-{}", upto.join(",")), "ReloadId({old}) offered {:?}: call #{i} returned {got} (want {want}), stored {} (want {s})", &offers[..=i], raw(r));
+                    fail!("seq-ReloadId-update", "minimal case ReloadId({old}) <- {}: call #{i} returned {got} (want {want}), stored {} (want {s})", upto.join(","), raw(r));
                 }
             }
             outcome(&("rid", old, &offers, s));
@@ -112,10 +123,10 @@ fn seq_reload_id() {
 fn seq_atomic(init: usize) {
     let never = AtomicReloadId::new();
     if raw(never.load()) != 0 || never.load() != ReloadId::NEVER {
-        fail!("seq:AtomicReloadId::new-not-NEVER", "AtomicReloadId::new().load() = {:?}", never.load());
+        fail!("seq-AtomicReloadId-new-not-NEVER", "AtomicReloadId::new().load() = {:?}", never.load());
     }
     if raw(AtomicReloadId::default().load()) != 0 {
-        fail!("seq:AtomicReloadId::default-not-NEVER", "default().load() != NEVER");
+        fail!("seq-AtomicReloadId-default-not-NEVER", "default().load() != NEVER");
     }
     let mut alphabet = vec![];
     for k in VALS {
@@ -141,7 +152,7 @@ fn seq_atomic(init: usize) {
             s = s2;
             let stored = raw(a.load());
             if got != want || stored != s {
-                fail!(format!("seq:AtomicReloadId:{init}:{}", prog_name(&ops[..=i])), "AtomicReloadId({init}) after {:?}: call #{i} returned {got} (want {want}), stored {stored} (want {s})", &ops[..=i]);
+                fail!(format!("seq-AtomicReloadId-{}", o.kind()), "minimal case AtomicReloadId({init}) {}: call #{i} returned {got} (want {want}), stored {stored} (want {s})", prog_name(&ops[..=i]));
             }
         }
         outcome(&("atomic", init, &ops, s));
@@ -255,11 +266,11 @@ pub fn configs(thorough: bool) -> Vec<Config> {
     conc_family(&mut v, "mixed3", &[1, 1, 1], &mix3, &[0, 2], true);
     let upd12: Vec<Op> = vec![Update(1), Update(2)];
     conc_family(&mut v, "update3x2", &[2, 2, 2], &upd12, &[0, 1], false);
+    let all3: Vec<Op> = (1..=3).map(Update).chain((1..=3).map(FetchMax)).chain((1..=3).map(Swap)).collect();
+    conc_family(&mut v, "mixed3all", &[1, 1, 1], &all3, &[0, 2], true);
+    let m5: Vec<Op> = vec![Update(1), Update(2), Update(3), FetchMax(2), Swap(1)];
+    conc_family(&mut v, "mixed3x112", &[1, 1, 2], &m5, &[0, 2], false);
     if thorough {
-        let all3: Vec<Op> = (1..=3).map(Update).chain((1..=3).map(FetchMax)).chain((1..=3).map(Swap)).collect();
-        conc_family(&mut v, "mixed3all", &[1, 1, 1], &all3, &[0, 2], true);
-        let m5: Vec<Op> = vec![Update(1), Update(2), Update(3), FetchMax(2), Swap(1)];
-        conc_family(&mut v, "mixed3x112", &[1, 1, 2], &m5, &[0, 2], false);
         conc_family(&mut v, "mixed3x2", &[2, 2, 2], &m5, &[0, 2], false);
     }
     v
